@@ -54,14 +54,21 @@ impl Request {
     pub fn into_body(self) -> (r: Body) ensures r == self.body { unimplemented!() }
 }
 pub struct BytesMut { pub data: Ghost<Seq<u8>> }
+/// futures::future::ok(x): a future that is immediately ready with Ok(x)
+#[verifier::external_body]
+pub fn future_ok(x: BytesMut) -> (r: Result<BytesMut, HttpError>) ensures r == Ok::<BytesMut, HttpError>(x) { unimplemented!() }
 impl BytesMut {
+    /// bytes::BufMut::put for BytesMut: appends the bytes
+    #[verifier::external_body]
+    pub fn put(&mut self, b: Bytes) ensures final(self).data@ == old(self).data@ + b.data@ { unimplemented!() }
     #[verifier::external_body]
     pub fn freeze(self) -> (r: Bytes) ensures r.data@ == self.data@ { unimplemented!() }
 }
 impl StreamingBody {
-    /// A5: `into_bytes_mut` is `self.into_stream().try_fold(BytesMut::new(), |out, chunk| { out.put(chunk); ok(out) })`
-    /// (a stream combinator, not extracted).  Its assumed contract is the contract PROVED for
-    /// `into_stream_erased` below, with "the chunks yielded" replaced by their concatenation.
+    /// A5: `into_bytes_mut` is `self.into_stream().try_fold(BytesMut::new(), |out, chunk| { out.put(chunk); ok(out) })`.
+    /// The stream combinator `try_fold` is not extracted; its folding step IS (into_bytes_mut_fold_step: appends exactly
+    /// the chunk).  The assumed contract is the contract PROVED for `into_stream_erased`, with "the chunks yielded"
+    /// replaced by their concatenation -- i.e. what try_fold computes from that step.
     #[verifier::external_body]
     pub fn into_bytes_mut(self) -> (r: Result<BytesMut, HttpError>)
         ensures
